@@ -111,6 +111,7 @@ type world struct {
 	funding []*wire.MsgTx
 	sent    []*wire.MsgTx
 	// imported accounts (acctw.go)
+	relabel   string // prefix put in front of every signature (wallet-level C10: after a fired fault)
 	imported  []importedAcct
 	impIssued []impIssued
 }
@@ -121,10 +122,14 @@ var ownSigs = map[string][]string{
 	"C03": {"c03w:", "address-not-seed-child"},
 	"C05": {"c05w:", "restart-failed"},
 	"C08": {"c08w:"},
+	"C10": {"c10w:"},
 	"C13": {"c13w:"},
 }
 
 func (x *world) fail(sig, format string, a ...any) {
+	if x.relabel != "" {
+		sig = x.relabel + sig
+	}
 	if pre, ok := ownSigs[x.prop]; ok && !x.violated {
 		mine := false
 		for _, p := range pre {
